@@ -88,19 +88,27 @@ impl Formatter {
 
     fn format_into_buf(&self, input: &str, buf: &mut String, options: FileOptions) {
         let mut tokens = self.lexer.lex(input);
+        #[cfg(feature = "verif_hooks")]
+        crate::verif::stage_raw("lex", &tokens);
         let mut cursors = self.reconstructor.process_cursors(options.cursors, &tokens);
 
         for token_consolidator in self.token_consolidators.iter() {
             token_consolidator.consolidate(&mut tokens);
         }
         let (mut lines, mut tokens) = self.logical_line_parser.parse(tokens);
+        #[cfg(feature = "verif_hooks")]
+        crate::verif::stage_tokens("parse", &tokens, &lines, None);
         for line_consolidator in self.post_parse_consolidators.iter() {
             line_consolidator.consolidate((&mut tokens, &mut lines));
+            #[cfg(feature = "verif_hooks")]
+            crate::verif::stage_tokens("consolidate", &tokens, &lines, None);
         }
         let mut ignored_tokens = TokenMarker::default();
         for token_ignorer in &self.token_ignorers {
             token_ignorer.ignore_tokens((&tokens, &lines), &mut ignored_tokens)
         }
+        #[cfg(feature = "verif_hooks")]
+        crate::verif::stage_tokens("ignore", &tokens, &lines, Some(&ignored_tokens));
         let mut tokens_marked_for_deletion = TokenMarker::default();
         for token_remover in self.token_removers.iter() {
             token_remover.remove_tokens((&tokens, &lines), &mut tokens_marked_for_deletion);
@@ -125,10 +133,16 @@ impl Formatter {
             &mut lines,
             Some(cursors.as_mut()),
         );
+        #[cfg(feature = "verif_hooks")]
+        crate::verif::stage_tokens("void", &tokens, &lines, Some(&ignored_tokens));
 
         let mut formatted_tokens = FormattedTokens::new_from_tokens(&mut tokens, &ignored_tokens);
+        #[cfg(feature = "verif_hooks")]
+        crate::verif::stage_formatted("initfmt", &formatted_tokens, &lines);
         for formatter in self.logical_line_formatters.iter() {
             formatter.format(&mut formatted_tokens, &lines);
+            #[cfg(feature = "verif_hooks")]
+            crate::verif::stage_formatted("format", &formatted_tokens, &lines);
         }
 
         cursors.relocate_cursors(&formatted_tokens);
